@@ -15,6 +15,18 @@ EVID = os.path.join(ROOT, "evidence")
 REPLAYS = os.path.join(ROOT, "replays")
 KNOWN = os.path.join(ROOT, "known_findings.json")
 REPO = os.environ.get("VERIF_REPO", "/repo")
+# a run against a scratch tree (seeded changes, mutants: VERIF_REPO set) keeps its case files, evidence and replays in a
+# private scratch directory: it never touches /verif/evidence and can run beside a check of /repo
+SCRATCH_RUN = os.path.realpath(REPO) != "/repo"
+if SCRATCH_RUN:
+    import tempfile
+    _BASE = os.path.join(tempfile.gettempdir(), f"verif_scratch_{os.getpid()}")
+    CASES = os.path.join(_BASE, "cases")
+    EVID = os.path.join(_BASE, "evidence")
+    REPLAYS = os.path.join(_BASE, "replays")
+    import atexit
+    import shutil
+    atexit.register(lambda: shutil.rmtree(os.path.join(_BASE, "cases"), ignore_errors=True))
 GUARD = "TEMPOCOLLABORATION_OQUPY_VERIF"
 
 FORBIDDEN = re.compile(
@@ -95,7 +107,11 @@ def compile_props(pid, timeout=600):
     src = strip_comments(open(path).read())
     res["theorems"] = re.findall(r"^\s*(?:Theorem|Corollary)\s+(\w+)", src, re.M)
     res["examples"] = re.findall(r"^\s*Example\s+(\w+)", src, re.M)
-    rc, out = sh(f"coqc -Q theories OQ -w -notation-overridden,-ambiguous-paths,-deprecated-hint-without-locality,-undeclared-scope,-inexact-float theories/Props/{pid}.v",
+    outopt = ""
+    if SCRATCH_RUN:
+        os.makedirs(_BASE, exist_ok=True)
+        outopt = f"-no-glob -o {os.path.join(_BASE, pid + '.vo')} "
+    rc, out = sh(f"coqc -Q theories OQ {outopt}-w -notation-overridden,-ambiguous-paths,-deprecated-hint-without-locality,-undeclared-scope,-inexact-float theories/Props/{pid}.v",
                  cwd=COQ, timeout=timeout)
     out = "\n".join(l for l in out.splitlines() if "conda" not in l)
     res["log"] = out[-4000:]
